@@ -99,9 +99,22 @@ class Merge(Expr):
             predicate_columns = self._predicate_columns(predicate)
             if predicate_columns is None:
                 return False
-            if predicate_columns.issubset(self.left.columns):
+
+            def renamed(other, suffix):
+                # the output column of that name belongs to the other side
+                return suffix != "" and any(
+                    f"{col}{suffix}" in self.columns and col in other.columns
+                    for col in predicate_columns
+                )
+
+            left_suffix, right_suffix = self.suffixes[0], self.suffixes[1]
+            if predicate_columns.issubset(self.left.columns) and not renamed(
+                self.right, left_suffix
+            ):
                 return self.how in ("left", "inner", "leftsemi")
-            elif predicate_columns.issubset(self.right.columns):
+            elif predicate_columns.issubset(self.right.columns) and not renamed(
+                self.left, right_suffix
+            ):
                 return self.how in ("right", "inner")
             elif len(predicate_columns) > 0:
                 return False
